@@ -297,6 +297,13 @@ func unwrapPathErr(err error) error {
 func (fs *FS) rename(oldname, newname string) error {
 	oldFile, err := fs.getFile(oldname)
 	if err != nil {
+		if _, oldParentErr := fs.getFile(path.Dir(oldname)); errors.Is(err, hackpadfs.ErrNotExist) && oldParentErr == nil {
+			// like rename(2), both parent directories are looked up before the source file itself
+			newParent, newParentErr := fs.getFile(path.Dir(newname))
+			if errors.Is(newParentErr, hackpadfs.ErrNotDir) || (newParentErr == nil && !newParent.Mode().IsDir()) {
+				return hackpadfs.ErrNotDir
+			}
+		}
 		return err
 	}
 	oldInfo, err := oldFile.Stat()
